@@ -80,6 +80,7 @@ def gen_case(rng, kind):
             "p": int(rng.choice([2, 6, 10, 15, 17, 20])), "mode": MODES[int(rng.integers(3))],
             "compression": ["snappy", "gzip", None][int(rng.integers(3))],
             "int_type": [None, None, "np.int64", "np.int32"][int(rng.integers(4))],
+            "relative": bool(rng.random() < 0.12),
             "previous": [None, None, "larger", "smaller"][int(rng.integers(4))],
             "seed": int(rng.integers(2 ** 31))}
 
@@ -149,6 +150,13 @@ def check_case(ctx, case):
     def viol(clause, mech, exp=None, obs=None):
         ctx.violation(clause, mech, w, expected=exp, observed=obs, case=case)
 
+    cwd0 = os.getcwd()
+    lib_path, lib_root = path, root
+    if case.get("relative") and not case.get("strace"):
+        # the caller names the dataset and the temporary directories relative to its working directory
+        os.chdir(ctx.scratch)
+        lib_path, lib_root = os.path.relpath(path, ctx.scratch), os.path.relpath(root, ctx.scratch)
+        ctx.count("relative_path_cases")
     try:
         df = gf.build_frame(spec)
         act = df.geometry.name
@@ -168,9 +176,9 @@ def check_case(ctx, case):
             if slog:
                 os.mkdir(os.path.join(ctx.scratch, f"MARK-begin-{case['seed']}"))
             ok, res, tb = ctx.guarded(lambda: ddf.pack_partitions_to_parquet(
-                path, filesystem=fs, npartitions=_as(k, case.get("int_type")), p=_as(p, case.get("int_type")),
+                lib_path, filesystem=fs, npartitions=_as(k, case.get("int_type")), p=_as(p, case.get("int_type")),
                 compression=case["compression"],
-                tempdir_format=tempdir_format(mode, root), _retry_args=RETRY,
+                tempdir_format=tempdir_format(mode, lib_root), _retry_args=RETRY,
                 overwrite=bool(case["previous"])))
             fs.armed = False
             ctx.count("fs_events", len(fs.events))
@@ -254,6 +262,10 @@ def check_case(ctx, case):
                                         "wrong_type": wrongtype[:10]})
             # (2) conservation over the event log
             created, removed, moved = fsmon.created_removed(fs.events)
+            # (the log holds the paths as the library named them - possibly relative to the working directory)
+            created = {os.path.abspath(c) for c in created}
+            removed = {os.path.abspath(c) for c in removed}
+            moved = [tuple(os.path.abspath(x) for x in m) for m in moved]
             final = {os.path.join(root, t.rstrip("/")) for t in tree}
             ctx.count("conservation_checked")
             ghosts = [c for c in created if os.path.exists(c) and os.path.relpath(c, root) not in
@@ -315,6 +327,7 @@ def check_case(ctx, case):
         else:
             raise
     finally:
+        os.chdir(cwd0)
         shutil.rmtree(root, ignore_errors=True)
 
 
